@@ -344,7 +344,56 @@ class Run:
         return ("reproduced" if reproduced else "not-reproduced"), info
 
     # ----------------------------------------------------------------- run
+    def auto_selfcheck(self, max_units=24, nvec=6):
+        """differential validation of the BV encoder on this run's own units: native g++ -O0 result == encoding on corner and
+        VERIF_SEED-seeded arguments (inputs on which the encoding reports UB are skipped).  A mismatch voids the run."""
+        seen, todo = set(), []
+        for ob in self.obs:
+            for c in ob.calls:
+                o = c.opts
+                plain = o is None or not (o.stubs or o.mul_uf or o.div_spec or o.div_uf or o.int_mode or o.loop_cut
+                                          or o.fp_mode != "bits" or o.machine)
+                key = (id(c.h), c.unit.name, c.ir, c.std)
+                if not plain or key in seen or c.ir != "S" or not c.unit.params:
+                    continue
+                seen.add(key)
+                todo.append(c)
+        self.rng.shuffle(todo)
+        corners = {64: [0, 1, -1, 65536, -65536, 102944, 205887, 1 << 30, (1 << 47) - 1, -(1 << 46), M, -M, NAN, 39322, 159744],
+                   32: [0, 1, -1, 360, -360, 90, 2147483647, -2147483648, 65536], 16: [0, 1, -1, 360, 32767, -32768, 255],
+                   8: [0, 1, -1, 127, -128, 90], 1: [0, 1]}
+        by_h = {}
+        for c in todo[:max_units]:
+            vecs = []
+            for _ in range(nvec):
+                v = []
+                for (n, k) in c.unit.params:
+                    w = B.WIDTH[k]
+                    if k in ("f32", "f64"):
+                        x = self.rng.choice([0.0, 1.5, -2.25, 1e-3, 12345.678, -3.0e9, 2147483646.5, 1e20, float("inf")])
+                        v.append(B.fp_bits_of(k, x))
+                    elif self.rng.random() < 0.5:
+                        v.append(B.to_unsigned(self.rng.choice(corners[w]), w))
+                    else:
+                        v.append(self.rng.randrange(0, 1 << min(w, self.rng.choice([8, 17, 33, 48, w]))))
+                vecs.append(v)
+            by_h.setdefault((c.h, c.opts, c.std), {}).setdefault(c.unit.name, []).extend(vecs)
+        mism = 0
+        for (h, o, std), vectors in by_h.items():
+            mism += self.selfcheck_units(h, vectors, opts=o, std=std)
+        return mism
+
     def execute(self):
+        if os.environ.get("VERIF_NO_SELFCHECK") != "1":
+            try:
+                if self.auto_selfcheck():
+                    print("INCONCLUSIVE property=%s: ENCODER-MISMATCH (the symbolic encoding disagrees with the native build)" % self.pid)
+                    self.write_evidence()
+                    return 2
+            except (Unsupported, B.BuildError) as e:
+                print("INCONCLUSIVE property=%s: encoder self-check could not run: %s" % (self.pid, str(e)[:300]))
+                self.write_evidence()
+                return 2
         workdir = os.path.join(B.BUILD, "%s_smt" % self.pid)
         os.makedirs(workdir, exist_ok=True)
         todo = list(self.obs)
